@@ -24,11 +24,11 @@ Fresh(s) == IF Class[s] = "local" THEN "ok_p" ELSE "ok_u"
 Only(s, f) == [t \in Stores |-> IF t = s THEN f ELSE [o \in Oids |-> Absent]]
 Holding(s, X) == Only(s, [o \in Oids |-> IF o \in X THEN Fresh(s) ELSE Absent])
 GcCases(_u) ==
-    { [init |-> Holding(s, X), s |-> s, used |-> u, foreign |-> fo, shallow |-> sh, dry |-> dry, ro |-> ro] :
+    { [init |-> Holding(s, X), s |-> s, used |-> u, foreign |-> fo, ord |-> ord, shallow |-> sh, dry |-> dry, ro |-> ro] :
         s \in Stores, X \in SUBSET Oids, u \in SUBSET Oids, fo \in {{}, {"f1"}, {"d2", "f3"}},
-        sh \in BOOLEAN, dry \in BOOLEAN, ro \in {FALSE} }
+        ord \in {"used-first", "foreign-first"}, sh \in BOOLEAN, dry \in BOOLEAN, ro \in {FALSE} }
     \cup
-    { [init |-> Holding(s, X), s |-> s, used |-> u, foreign |-> {}, shallow |-> sh, dry |-> FALSE, ro |-> TRUE] :
+    { [init |-> Holding(s, X), s |-> s, used |-> u, foreign |-> {}, ord |-> "used-first", shallow |-> sh, dry |-> FALSE, ro |-> TRUE] :
         s \in Stores, X \in {Oids, {"f1", "d2"}}, u \in {{}, {"d1"}, {"f1", "f2"}}, sh \in BOOLEAN }
 
 (***************************** C12 / C07 : status, check **************************)
@@ -87,7 +87,7 @@ GenInit == Init
 GenNext == UNCHANGED vars
 What == IOEnv.GEN_WHAT
 Out == CASE What = "xfer"   -> [push |-> PushCases(0), fetch |-> FetchCases(0)]
-         [] What = "gc"     -> [gc |-> GcCases(0)]
+         [] What = "gc"     -> [gc |-> {c \in GcCases(0) : c.foreign = {} => c.ord = "used-first"}]
          [] What = "status" -> [status |-> StatusCases(0), check |-> CheckCases(0)]
          [] What = "c11"    -> [c11 |-> C11Cases(0), verify |-> VerifyCases(0)]
          [] What = "stale"  -> [stale |-> {c \in StaleCases(0) : c.E \subseteq c.r1}]
